@@ -1,6 +1,7 @@
 package main
 
 import (
+	"math"
 	"github.com/pip-services3-gox/pip-services3-expressions-gox/calculator/functions"
 	"fmt"
 	"github.com/pip-services3-gox/pip-services3-expressions-gox/calculator"
@@ -16,7 +17,7 @@ import (
 var exprSoupAlpha = []string{"a", "1", ".", "-", "+", "*", "/", "(", ")", "[", "]", ",", "'", "\"", "<", "=", ">", "!", " ", "é", "^", "%", "e", "N"}
 
 var boundaryEnvs = func() [][]binding {
-	vals := []*variants.Variant{vNull(), vInt(0), vInt(-1), vInt(9223372036854775807), vInt(-9223372036854775808), vLong(64), vFloat(1.5),
+	vals := []*variants.Variant{vNull(), vInt(0), vInt(-1), vInt(9223372036854775807), vInt(-9223372036854775808), vLong(64), vLong(-1), vLong(math.MinInt64), vFloat(1.5),
 		vDouble(0), vStr(""), vStr("é"), vStr("héllo"), vStr("世界"), vStr("abc"), vBool(true), vArr(), vArr(vInt(1), vNull()), evalVarValues[len(evalVarValues)-2], evalVarValues[len(evalVarValues)-1], evalVarValues[len(evalVarValues)-4]}
 	var out [][]binding
 	for _, v := range vals {
@@ -74,6 +75,7 @@ func propC03(c *Ctx) {
 	rec(nil)
 	// indexing, shifting, dividing and calling with every boundary value on either side
 	for _, e := range []string{"a[0]", "a[1]", "a[2]", "a[5]", "a[-1]", "e[N]", "a[e]", "1 / a", "1 % a", "1 << a", "a >> N", "a ^ N", "N ^ a",
+		"a << e", "a >> e", "a / e", "a % e", "a ^ e", "a[e]", "a * e", "a - e", "a AND e", "a OR e", "a XOR e", "a >= e", "a <> e",
 		"a IN e", "a NOT IN e", "Min(a, e)", "Max(a, N, e)", "Sum(a, e)", "If(a, 1, 2)", "Choose(a, 1, 2)", "Abs(a)", "Sqrt(a)", "Trunc(a)",
 		"Contains(a, e)", "Date(a)", "DayOfWeek(a)", "TimeSpan(a)", "Array(a, e)[1]", "-a", "NOT a", "a IS NULL", "a + e", "a = e", "a < e", "a LIKE e"} {
 		for _, env := range boundaryEnvs {
